@@ -392,8 +392,21 @@ def exec (st : State) (toks : List String) : State × List String :=
       let p ← parseProp prop; let k ← parseInt n
       pure (localPut e ops t o p (.inc k) false, false))
   | ["crdt.splice", r, obj, pos, del, text] => edit st r obj (fun e ops t o => do
-      let i ← pos.toNat?; let dl ← del.toNat?; let tx ← unhx text
-      pure (localSpliceText e ops t o i dl tx, false))
+      let i ← pos.toNat?; let tx ← unhx text
+      match del.toNat? with
+      | some dl => pure (localSpliceText e ops t o i dl tx, false)
+      | none =>
+        -- a negative count deletes backwards: `inner_splice` rewrites (index, -k) to (index - k, k) and
+        -- fails with InvalidIndex when k > index
+        let k ← (del.drop 1).toString.toNat?
+        if !del.startsWith "-" then none
+        else
+          -- (the object is resolved first: an unknown / non-text object wins over the index error)
+          let res := localSpliceText e ops t o (i - k) k tx
+          match res with
+          | .error .objid => pure (res, false)
+          | .error .invalidOp => pure (res, false)
+          | _ => if k > i then pure (.error .index, false) else pure (res, false))
   | ["crdt.commit", r] =>
     match st.txs.find? (fun p => p.1 == r) with
     | none => (st, ["none"])
